@@ -721,3 +721,34 @@ package s3db
 //@   ensures error-or-positioned: imp(result == nil, c.eof || (c.currentKey != nil && c.currentRow != nil))
 //@   loop 1 modifies contents(c.ops), contents(c.operands), c.max, c.min, c.ltMax, c.gtMin
 //@   loop 1 invariant -1 <= rangeindex && rangeindex < nParts(idxStr[5:]) && len(c.ops) == len(val) && len(c.operands) == len(val) && fresh(c.ops) && fresh(c.operands) && imp(c.max != nil, keyOK(c.max)) && imp(c.min != nil, keyOK(c.min))
+
+// ---------------------------------------------------------------------------
+// Vacuum (properties C09, C10, C13).
+//
+// Only rows that are already invisible (deleted) and whose delete time is
+// strictly before the cutoff are turned into kv tombstones; the purge and the
+// deletion of history happen only after the purged tree was committed; a
+// read-only table issues no PUT and no DELETE.
+//@ func GetTable
+//@   modifies nothing
+//@   ensures imp(has(tables, name), result == tables[name]) && imp(!has(tables, name), result == nil)
+
+//@ func Vacuum$1
+//@   requires db != nil
+//@   modifies nothing
+
+//@ spec vacShape(s int, i int) bool = imp(0 <= i && i < seqN(s), seqValTag(s, i) == valueTag() &&
+//@     imp(!tomb(vAt(s, i)), typeis(vAt(s, i).Value, *v1proto.Row) && vAt(s, i).Value.(*v1proto.Row) != nil))
+
+//@ func Vacuum
+//@   requires ctx != nil
+//@   requires imp(has(tables, tableName) && tables[tableName] != nil, vtOK(tables[tableName]))
+//@   requires forall i int :: imp(has(tables, tableName) && tables[tableName] != nil, vacShape(*tables[tableName].Tree.Root.crdt.Mast, i))
+//@   modifies puts, deletes, lastPutPrefix, lastPutName, lastPutOK, tables[tableName].Tree.Root
+//@   ensures readonly: imp(has(tables, tableName) && tables[tableName] != nil && old(tables[tableName].Tree.Root.readonly), puts == old(puts) && deletes == old(deletes))
+//@   loop 1 invariant db != nil && dbOK(db) && fresh(db) && tc != nil && tc.Cursor != nil && table != nil && table == tables[tableName] && table.Tree != nil
+//@   loop 1 invariant puts == old(puts) && deletes == old(deletes) && db.readonly == old(tables[tableName].Tree.Root.readonly)
+//@   loop 1 invariant gf(tc.Cursor, "snap") == old(*tables[tableName].Tree.Root.crdt.Mast)
+//@   at call:kv.(*DB).Tombstone assert only-invisible-rows: row.Deleted
+//@   at call:kv.(*DB).Tombstone assert strictly-before-cutoff: ns(rowTime) + dur(row.DeleteUpdateOffset) < ns(beforeTime)
+//@   at call:kv.DeleteHistoricVersions assert after-commit: err == nil && table.Tree.Root != nil && fresh(table.Tree.Root)
